@@ -47,8 +47,10 @@ def symbols(version: str) -> list:
 
 def build(version: str, sleeping: bool, combo) -> dict:
     steps: list[list] = []
+    # the node's presentation type is not part of C07: sleeping repeaters (18), sensors (17), odd types all buffer alike
+    node_type = (17, 18, 17, 0, 18, 99)[(len(combo) + sum(len(str(sym[1])) for sym in combo)) % 6]
     for node in (A, B):
-        steps.append(["restore", node, {"type": 17, "version": "2.0", "sleeping": sleeping,
+        steps.append(["restore", node, {"type": node_type if node == A else 17, "version": "2.0", "sleeping": sleeping,
                                         "children": {"0": [3, "c0", {}], "1": [3, "c1", {}]}}])
     for i, sym in enumerate(combo):
         if sym[0] == "txi":
